@@ -4,7 +4,7 @@
 From Coq Require Import String Ascii.
 From Coq Require Import NArith ZArith List Bool Arith Lia.
 Import ListNotations.
-Require Import UV.Gen.Consts UV.C16.Model UV.C16.Proofs UV.C16.Frame UV.C16.Dirs.
+Require Import UV.Gen.Consts UV.C16.Model UV.C16.Proofs UV.C16.Frame UV.C16.Dirs UV.C16.Pick.
 Local Open Scope N_scope.
 
 (* ghost: for every connection with an open session - the directory it was given, what that directory held
@@ -173,3 +173,72 @@ Example same_dirname_separated :
   | None => False
   end.
 Proof. vm_compute. repeat split; reflexivity. Qed.
+
+(* ------------------------------------------------------------------ protocol-following clients never kill the server *)
+(* every connection: SEND_DIR_NAME (ANY name) first, then data/metadata, SEND_END last *)
+Fixpoint proto (open : list N) (evs : list (N * msg)) : bool :=
+  match evs with
+  | [] => true
+  | (j, MDir _) :: r => negb (memb j open) && proto (j :: open) r
+  | (j, MEnd) :: r => memb j open && proto (List.remove N.eq_dec j open) r
+  | (j, _) :: r => memb j open && proto open r
+  end.
+
+Lemma del_client_length k cl : (length (del_client k cl) <= length cl)%nat.
+Proof.
+  induction cl as [|[j d] cl IH]; [cbn; lia|]. cbn [del_client]. destruct (j =? k); cbn [length]; lia.
+Qed.
+
+Lemma survive_fixed : forall evs s g open, owned s g -> (forall j, In j open -> g j <> None) ->
+  N.of_nat (length (clients s) + length evs) < 1000000 -> proto open evs = true -> grun evs s g <> None.
+Proof.
+  induction evs as [|[j m] r IH]; intros s g open O G B P; [cbn; discriminate|].
+  cbn [grun]. cbn [length] in B.
+  assert (Step : forall s1 open1, apply true j (action_of m) s = Some s1 ->
+            (forall i, In i open1 -> gstep j m s g i <> None) ->
+            (length (clients s1) <= S (length (clients s)))%nat -> proto open1 r = true ->
+            match apply true j (action_of m) s with Some s' => grun r s' (gstep j m s g) | None => None end <> None).
+  { intros s1 open1 A G1 L P1. rewrite A. apply (IH s1 (gstep j m s g) open1); auto.
+    - apply (owned_step j m s g s1 O A).
+    - lia. }
+  destruct (is_body m) eqn:Bd.
+  - assert (Pj : memb j open = true /\ proto open r = true).
+    { destruct m; try discriminate Bd; cbn [proto] in P; apply andb_true_iff in P; exact P. }
+    destruct Pj as [Mj Pr]. apply memb_In in Mj.
+    destruct (g j) as [[[c b] body]|] eqn:Gj; [|exfalso; apply (G j Mj Gj)].
+    destruct O as [ND OW]. destruct (OW j c b body Gj) as [Fj Dj].
+    pose proof (apply_body true j c m s _ Bd Fj Dj) as A.
+    apply (Step _ open A); [|cbn [clients]; lia|exact Pr].
+    intros i Ii. assert (GS : gstep j m s g = g_set j (Some (c, b, body ++ [m])) g)
+      by (destruct m; try discriminate Bd; cbn [gstep]; rewrite Gj; reflexivity).
+    rewrite GS. unfold g_set. destruct (i =? j); [discriminate|apply G; exact Ii].
+  - destruct m; try discriminate Bd; cbn [proto] in P; apply andb_true_iff in P; destruct P as [P1 P2].
+    + (* MDir *)
+      destruct (mkdir_name true name (clients s)) as [c|] eqn:MK.
+      * assert (A : apply true j (action_of (MDir name)) s =
+                    Some {| clients := (j, c) :: clients s; fs := create_directory c (fs s) |})
+          by (cbn [action_of apply]; rewrite MK; reflexivity).
+        apply (Step _ (j :: open) A); [|cbn [clients length]; lia|exact P2].
+        cbn [gstep]. rewrite MK. intros i [<-|Ii]; unfold g_set; [rewrite N.eqb_refl; discriminate|].
+        destruct (i =? j); [discriminate|apply G; exact Ii].
+      * exfalso. apply (mkdir_name_total name (clients s)); [lia|exact MK].
+    + (* MEnd *)
+      assert (A : apply true j (action_of MEnd) s = Some {| clients := del_client j (clients s); fs := fs s |}) by reflexivity.
+      apply (Step _ (List.remove N.eq_dec j open) A); [| |exact P2].
+      * cbn [gstep]. intros i Ii. apply in_remove in Ii. destruct Ii as [Ii Nij]. unfold g_set.
+        destruct (i =? j) eqn:E; [apply N.eqb_eq in E; contradiction|apply G; exact Ii].
+      * cbn [clients]. pose proof (del_client_length j (clients s)). lia.
+Qed.
+
+(* for the code with the directory-name rule: clients that follow the protocol - with ANY directory names, the same
+   ones included - never make `uftrace recv` exit, for every interleaving (fewer than a million messages) *)
+Theorem sessions_survive_fixed evs : N.of_nat (length evs) < 1000000 -> proto [] evs = true -> run true evs server0 <> None.
+Proof.
+  intros B P H. pose proof (grun_run evs server0 ghost0) as GR.
+  destruct (grun evs server0 ghost0) as [[s g]|] eqn:E; [congruence|].
+  apply (survive_fixed evs server0 ghost0 []); auto;
+    try (split; [constructor|intros k c b body Hk; discriminate Hk]); try (intros j []).
+Qed.
+
+Example proto_nonvacuous : proto [] evs_same = true /\ run true evs_same server0 <> None.
+Proof. split; [vm_compute; reflexivity|vm_compute; discriminate]. Qed.
